@@ -4,6 +4,7 @@ import (
 	"context"
 	"fmt"
 	"math/rand/v2"
+	"os"
 	"runtime/debug"
 	"sort"
 	"strings"
@@ -250,6 +251,9 @@ func (r *Run) oneStep() {
 	if r.K.LongIters {
 		addSafe(5, r.stepLongIter)
 	}
+	if r.K.BatchIters && r.K.Iters {
+		addSafe(12, r.stepBatchIterRefresh)
+	}
 	if r.K.Maint {
 		if r.K.MaintHeavy {
 			add(22, r.stepMaint)
@@ -483,12 +487,13 @@ func (r *Run) stepBatch() {
 			return
 		}
 		mo := r.randIterOpts()
-		it, err := bo.b.NewIter(r.toPebbleOpts(mo, false))
+		po := r.toPebbleOpts(mo, false)
+		it, err := bo.b.NewIter(po)
 		if err != nil {
 			r.fail("batch-read-mismatch", "batch NewIter: %v", err)
 			return
 		}
-		io := &iterObj{it: it, m: model.NewIter(r.overlay(bo), mo), desc: fmt.Sprintf("batch%d-iter%v", bo.id, mo), batch: bo, base: r.M.Clone(), born: r.step, frozen: true}
+		io := &iterObj{it: it, m: model.NewIter(r.overlay(bo), mo), desc: fmt.Sprintf("batch%d-iter%v", bo.id, mo), batch: bo, base: r.M.Clone(), born: r.step, frozen: true, l6: po.UseL6Filters}
 		r.iters = append(r.iters, io)
 		r.log("iter on batch%d %v", bo.id, mo)
 	case x < 18: // commit
@@ -625,6 +630,8 @@ func (r *Run) stepLongIter() {
 		io.desc = fmt.Sprintf("batch%d-iter%v(refreshed@%d)", io.batch.id, mo, r.step)
 		r.count("batch_view_refreshes", 1)
 		r.redrive(io, "after-refresh")
+	case x < 5 && io.batch != nil && r.K.Iters && r.rng.IntN(2) == 0:
+		r.batchIterRefresh(io)
 	case x < 5:
 		// clone
 		if len(r.iters) >= 6 {
@@ -660,6 +667,92 @@ func (r *Run) stepLongIter() {
 		if r.K.Iters && !r.failed {
 			r.iterOps(io, 10)
 		}
+	}
+}
+
+// batchIterRefresh positions a batch iterator (possibly pausing it at a
+// limit), mutates the batch underneath it, refreshes the batch view with the
+// SAME options (the cheap path of SetOptions) and seeks again near the old
+// position.
+func (r *Run) batchIterRefresh(io *iterObj) {
+	bo := io.batch
+	r.iterOps(io, 1+r.rng.IntN(4))
+	if r.failed {
+		return
+	}
+	for j, n := 0, 1+r.rng.IntN(2); j < n; j++ {
+		op := r.genOp(false)
+		r.log("batch%d.%s (under iter@%d)", bo.id, op, io.born)
+		io.full = append(io.full, "BATCH."+op.String())
+		if err := ApplyOp(bo.b, op, nil); err != nil {
+			r.fail("batch-write-error", "%s: %v", op, err)
+			return
+		}
+		bo.ops = append(bo.ops, op)
+	}
+	mo := io.m.Opts()
+	po := r.toPebbleOpts(mo, false)
+	po.UseL6Filters = io.l6
+	// half of the time the first seek after the refresh goes to (or just before)
+	// the key the iterator was on: the internal iterator may already be past it
+	if cur, on := io.m.Cur(); on && r.rng.IntN(2) == 0 {
+		p, _ := model.SplitKey(cur.Key)
+		io.forceFirstSeek = pick(r.rng, cur.Key, cur.Key, p, p+fmt.Sprintf("@%d", r.Cfg.MaxSuffix+1))
+	}
+	r.log("iter@%d on batch%d SetOptions(same %v) [refresh]", io.born, bo.id, mo)
+	io.full = append(io.full, "SetOptions(same)")
+	io.it.SetOptions(po)
+	st := io.base.Clone()
+	st.ApplyBatch(bo.ops)
+	io.m.SetState(st)
+	r.count("batch_view_refreshes_same_options", 1)
+	r.iterOps(io, 1+r.rng.IntN(4))
+}
+
+// stepBatchIterRefresh makes sure an indexed batch with an open iterator
+// exists and runs a few position / mutate / refresh / re-seek rounds on it.
+func (r *Run) stepBatchIterRefresh() {
+	var io *iterObj
+	for _, x := range r.iters {
+		if x.batch != nil {
+			io = x
+		}
+	}
+	if io == nil {
+		var bo *batchObj
+		for _, b := range r.bats {
+			if b.indexed {
+				bo = b
+			}
+		}
+		if bo == nil {
+			if len(r.bats) >= 4 {
+				return
+			}
+			bo = &batchObj{indexed: true, id: r.nbat, b: r.db.NewIndexedBatch()}
+			r.nbat++
+			r.bats = append(r.bats, bo)
+			r.log("batch%d = new indexed=true", bo.id)
+		}
+		if len(r.iters) >= 6 {
+			return
+		}
+		mo := r.randIterOpts()
+		if r.rng.IntN(2) == 0 {
+			mo.KeyTypes = model.PointsOnly
+		}
+		po := r.toPebbleOpts(mo, false)
+		it, err := bo.b.NewIter(po)
+		if err != nil {
+			r.fail("batch-read-mismatch", "batch NewIter: %v", err)
+			return
+		}
+		io = &iterObj{it: it, m: model.NewIter(r.overlay(bo), mo), desc: fmt.Sprintf("batch%d-iter%v", bo.id, mo), batch: bo, base: r.M.Clone(), born: r.step, frozen: true, l6: po.UseL6Filters}
+		r.iters = append(r.iters, io)
+		r.log("iter on batch%d %v", bo.id, mo)
+	}
+	for j, n := 0, 1+r.rng.IntN(3); j < n && !r.failed; j++ {
+		r.batchIterRefresh(io)
 	}
 }
 
@@ -702,12 +795,47 @@ func (r *Run) stepIterBurst() {
 func (r *Run) iterOps(io *iterObj, n int) {
 	it, m := io.it, io.m
 	var trace []string
+	defer func() {
+		io.full = append(io.full, trace...)
+		if len(trace) > 0 {
+			r.log("  ops on %s (now %v): %s", io.desc, m.Opts(), strings.Join(trace, " "))
+		}
+	}()
 	bad := func(op string, format string, a ...any) {
 		tail := trace
 		if len(tail) > 40 {
 			tail = tail[len(tail)-40:]
 		}
-		r.fail("iter-op-mismatch", "%s: %s: %s | ops so far: %s", io.desc, op, fmt.Sprintf(format, a...), strings.Join(tail, " "))
+		extra := ""
+		if strings.HasPrefix(op, "SeekGE(") && os.Getenv("VERIF_ITER_DIAG") != "" {
+			k := strings.TrimSuffix(strings.TrimPrefix(op, "SeekGE("), ")")
+			if cl, err := it.Clone(pebble.CloneOptions{}); err == nil {
+				ok := cl.SeekGE([]byte(k))
+				extra = fmt.Sprintf(" | diag: a Clone answers SeekGE(%s) with %s", k, pstr(ReadPos(cl), ok))
+				cl.Close()
+			}
+			if cl, err := it.Clone(pebble.CloneOptions{}); err == nil && os.Getenv("VERIF_ITER_DIAG") != "1" {
+				prev := os.Getenv("VERIF_ITER_DIAG")
+				ok1 := cl.SeekGE([]byte(prev))
+				p1 := pstr(ReadPos(cl), ok1)
+				ok2 := cl.SeekGE([]byte(k))
+				extra += fmt.Sprintf("; a Clone doing SeekGE(%s)=%s then SeekGE(%s)=%s", prev, p1, k, pstr(ReadPos(cl), ok2))
+				cl.Close()
+			}
+			ok := it.First()
+			_ = ok
+			ok = it.SeekGE([]byte(k))
+			extra += fmt.Sprintf("; the same iterator after First+SeekGE: %s", pstr(ReadPos(it), ok))
+		}
+		if os.Getenv("VERIF_ITER_DIAG") != "" {
+			extra += fmt.Sprintf(" | FULL OPS: %s %s | BASE: %s | LSM:\n%s", strings.Join(io.full, " "), strings.Join(trace, " "), func() string {
+				if io.base != nil {
+					return io.base.String()
+				}
+				return io.m.State().String()
+			}(), r.db.DebugString())
+		}
+		r.fail("iter-op-mismatch", "%s: %s: %s | ops so far: %s%s", io.desc, op, fmt.Sprintf(format, a...), strings.Join(tail, " "), extra)
 	}
 	// checkValid compares a deterministic result
 	check := func(op string, gotValid bool, exp model.Pos, expOK bool) bool {
@@ -759,6 +887,20 @@ func (r *Run) iterOps(io *iterObj, n int) {
 	var pending []string
 	var forcedBounds *[2]string
 	var forcedKey string
+	// seekKey draws a seek key, sometimes repeating the iterator's previous
+	// seek key (the no-op / paused-position seek shortcuts of Iterator).
+	if io.forceFirstSeek != "" {
+		pending = append(pending, "SeekGE")
+		forcedKey, io.forceFirstSeek = io.forceFirstSeek, ""
+	}
+	seekKey := func(i int) string {
+		k := r.seekKeyFor(m, i)
+		if io.lastSeek != "" && r.rng.IntN(3) == 0 {
+			k = io.lastSeek
+		}
+		io.lastSeek = k
+		return k
+	}
 	for i := 0; i < n && !r.failed; i++ {
 		var ops []string
 		if len(pending) > 0 {
@@ -863,7 +1005,7 @@ func (r *Run) iterOps(io *iterObj, n int) {
 			}
 			continue
 		case "SeekGE":
-			k := r.seekKeyFor(m, i)
+			k := seekKey(i)
 			if forcedKey != "" {
 				k, forcedKey = forcedKey, ""
 			}
@@ -871,7 +1013,7 @@ func (r *Run) iterOps(io *iterObj, n int) {
 			exp, ok := m.SeekGE(k)
 			check(op+"("+k+")", it.SeekGE([]byte(k)), exp, ok)
 		case "SeekLT":
-			k := r.seekKeyFor(m, i)
+			k := seekKey(i)
 			if forcedKey != "" {
 				k, forcedKey = forcedKey, ""
 			}
@@ -960,7 +1102,7 @@ func (r *Run) iterOps(io *iterObj, n int) {
 			N, ok := m.PeekPrev()
 			r.limitResult(op+"("+l+")", io, res, N, ok, ok && model.Cmp(N.Key, l) >= 0, func() { m.Prev() }, func() { m.PauseBackward(false, "") }, bad)
 		case "SeekGEWithLimit":
-			k := r.seekKeyFor(m, i)
+			k := seekKey(i)
 			l := r.randSeekKey()
 			if model.Cmp(l, k) <= 0 {
 				continue
@@ -970,7 +1112,7 @@ func (r *Run) iterOps(io *iterObj, n int) {
 			N, ok := m.PeekSeekGE(k)
 			r.limitResult(op+"("+k+","+l+")", io, res, N, ok, ok && model.Cmp(N.Key, l) < 0, func() { m.SeekGE(k) }, func() { m.PauseForward(true, k) }, bad)
 		case "SeekLTWithLimit":
-			k := r.seekKeyFor(m, i)
+			k := seekKey(i)
 			l := r.randSeekKey()
 			if model.Cmp(l, k) >= 0 {
 				continue
